@@ -130,10 +130,12 @@ func (db *DB) Open() error {
 	if err != nil {
 		return err
 	}
+	verifPhase(db, "open.loaded")
 	err = db.replayAndSetupWriteAheadLog()
 	if err != nil {
 		return err
 	}
+	verifPhase(db, "open.done")
 
 	go flushMemstoreContinuously(db)
 
@@ -161,6 +163,7 @@ func (db *DB) Close() error {
 		}
 
 		db.closed = true
+		verifPhase(db, "close.begin")
 
 		err := db.rotateWalAndFlushMemstore()
 		if err != nil {
@@ -169,6 +172,7 @@ func (db *DB) Close() error {
 
 		close(db.storeFlushChannel)
 		<-db.doneFlushChannel
+		verifPhase(db, "close.flusher")
 		return nil
 	}()
 
@@ -182,6 +186,7 @@ func (db *DB) Close() error {
 		db.compactionTickerStopChannel <- true
 		<-db.doneCompactionChannel
 	}
+	verifPhase(db, "close.done")
 
 	return errors.Join(db.wal.Close(), db.sstableManager.currentSSTable().Close())
 }
@@ -220,6 +225,7 @@ func (db *DB) GetBytes(keyBytes []byte) ([]byte, error) {
 		sstableNotFound = true
 	}
 
+	verifGate("get.between")
 	memStoreVal, err := db.memStore.Get(keyBytes)
 	if err != nil {
 		if errors.Is(err, memstore.KeyNotFound) {
@@ -295,6 +301,7 @@ func (db *DB) PutBytes(keyBytes, valBytes []byte) error {
 		if err != nil {
 			return err
 		}
+		verifPut(keyBytes, valBytes)
 
 		if db.memStore.EstimatedSizeInBytes() > db.memstoreMaxSize {
 			return db.rotateWalAndFlushMemstore()
@@ -343,6 +350,7 @@ func (db *DB) DeleteBytes(byteKey []byte) error {
 		}
 	}
 
+	verifDel(byteKey)
 	return db.memStore.Delete(byteKey)
 }
 
